@@ -112,11 +112,9 @@ inline int model_float(const std::string &t, double *v)
 	errno = 0;
 	char *end = nullptr;
 	double d = strtod(t.c_str(), &end);
-	if (errno == ERANGE) {
-		if (std::isinf(d))
-			return 0; // overflow: out of the finite range
-		return -1;     // underflow: silent in the statement
-	}
+	if (errno == ERANGE)
+		return 0; // overflow and underflow: outside the range a double can hold; accepting it would silently turn it into inf / 0 / a denormal
+	(void)d;
 	*v = d;
 	return 1;
 }
